@@ -25,8 +25,8 @@ PickAdd == \E sa \in Shapes3, sb \in Shapes3 : Broadcastable(sa, sb) /\ c' = [op
 PickEmb == \E v \in 1 .. 6, m \in 1 .. 3 : c' = [op |-> "embedding", vocab |-> v, batch |-> v * m]
 PickDrop == \E p \in {<<1, 4>>, <<1, 2>>, <<3, 4>>} : c' = [op |-> "dropout", p |-> p]
 PickMse == c' = [op |-> "mse_loss"]
-PickNorm == \E o \in {"layer_norm", "rms_norm"}, ns \in {1, 2, 4, 6}, rows \in {1, 2, 3, 9}, bs \in BOOLEAN :
-   c' = [op |-> o, normsize |-> ns, numel |-> ns * rows, bias |-> bs]
+PickNorm == \E o \in {"layer_norm", "rms_norm"}, ns \in {1, 2, 4, 6}, rows \in {1, 2, 3, 9}, bs \in BOOLEAN, ws \in BOOLEAN :
+   c' = [op |-> o, normsize |-> ns, numel |-> ns * rows, bias |-> bs, weight |-> ws \/ o = "rms_norm"]
 PickResid == \E t2 \in {<<1, 4>>, <<1, 1>>, <<4, 1>>, <<1, 64>>, <<9, 4>>} : c' = [op |-> "residual_add", tau2 |-> t2]
 Next == c.op = "none" /\ (PickLinear \/ PickMatmul \/ PickConv \/ PickAdd \/ PickEmb \/ PickDrop \/ PickMse \/ PickNorm \/ PickResid)
 Spec == Init /\ [][Next]_c
